@@ -395,6 +395,56 @@ type versionedRec struct {
 	who     string
 }
 
+// loaderLog is the log of one versioned url in one environment, for the Coq model
+// (Conc/LoaderModel.v): stores in the order they happened, origin answers, loads.
+type loaderLog struct {
+	Env    string     `json:"env"`
+	URL    string     `json:"url"`
+	Stores [][2]int64 `json:"stores"` // version, expiry (ns since process start, clamped at 0)
+	Serves [][4]int64 `json:"serves"` // version, start, end, ok
+	Loads  [][3]int64 `json:"loads"`  // start, end, version (0 = failed)
+}
+
+func (env *loaderEnv) exportLogs(name string, recs []versionedRec) []loaderLog {
+	var out []loaderLog
+	for _, v := range versionedURLs {
+		e := env.stub.known[v.url]
+		if e == nil {
+			continue
+		}
+		lg := loaderLog{Env: name, URL: v.url, Stores: [][2]int64{}, Serves: [][4]int64{}, Loads: [][3]int64{}}
+		env.engine.snapMu.Lock()
+		for _, s := range env.engine.snaps {
+			if s.key == v.url {
+				x := s.exp
+				if x < 0 {
+					x = 0
+				}
+				lg.Stores = append(lg.Stores, [2]int64{docVersion(s.doc), x})
+			}
+		}
+		env.engine.snapMu.Unlock()
+		e.mu.Lock()
+		for _, s := range e.served {
+			ok := int64(0)
+			if s.status == http.StatusOK {
+				ok = 1
+			}
+			lg.Serves = append(lg.Serves, [4]int64{s.k, s.start, s.end, ok})
+		}
+		e.mu.Unlock()
+		for _, r := range recs {
+			if r.url == v.url {
+				lg.Loads = append(lg.Loads, [3]int64{r.ts, r.te, r.version})
+			}
+		}
+		if len(lg.Loads) > 0 {
+			out = append(out, lg)
+		}
+	}
+	return out
+}
+
 // checkVersioned: every result must be explainable.  A version returned is either the one this
 // very load fetched (the origin served it inside the load's interval) or a cached one, and a
 // cached one can only be handed out if the load started before the expiry under which that
